@@ -4,7 +4,7 @@ use super::{
 };
 use crate::model::{
     helpers::{write_check_restrictions_footer, write_check_restrictions_header},
-    field::OtherRustType,
+    field::{Field, OtherRustType},
     structures::restrictions::Restrictions,
 };
 
@@ -149,6 +149,25 @@ where
     Ok(())
 }
 
+/// Members of one type may share a name (elements of two namespaces with the same local name, an attribute and an
+/// element): the second and later ones get a numbered field name, their XML names stay as they are.
+fn with_unique_rust_names(fields: &[Field]) -> Vec<Field> {
+    let mut taken: Vec<String> = Vec::new();
+    fields
+        .iter()
+        .map(|original| {
+            let mut field = original.clone();
+            let mut n = 1;
+            while taken.contains(&field.rust_name) {
+                n += 1;
+                field.rust_name = format!("{}_{n}", original.rust_name);
+            }
+            taken.push(field.rust_name.clone());
+            field
+        })
+        .collect()
+}
+
 fn write_complex_type<W>(writer: &mut W, props: &ComplexProps) -> WriterResult<()>
 where
     W: io::Write,
@@ -161,6 +180,7 @@ where
     } = &props;
 
     let rust_name = xml_name_to_rust_name(xml_name);
+    let fields = &with_unique_rust_names(fields);
 
     if let Some(comment) = comment {
         // a carriage return is not allowed inside a doc comment: treat it as a line break as well
